@@ -180,6 +180,14 @@ func (s *Server) handle(ctx context.Context, c *crypter, h Handler) {
 				sessionProvider.delete(req.Header.SessionID)
 				continue
 			}
+			if resp.header.SeqNo > HeaderMaxSequence {
+				// the request was numbered 255, so the reply could not be sent: the sequence space of
+				// this session is used up and the session must terminate. keeping the continuation
+				// would let a later packet numbered 1 reach it
+				s.Debugf(ctx, "[%v] sessionID has exhausted its sequence numbers", req.Header.SessionID)
+				sessionProvider.delete(req.Header.SessionID)
+				continue
+			}
 			sessionProvider.update(resp.header, resp.next)
 		}
 	}
